@@ -513,6 +513,11 @@ fn _factor_inner<T: FloatT>(
     D.fill(T::zero());
     next_colspace.copy_from_slice(&Lp[0..Lp.len() - 1]);
 
+    // nothing to eliminate in an empty (0 x 0) matrix
+    if n == 0 {
+        return Ok(positiveValuesInD);
+    }
+
     if !logical_factor {
         // First element of the diagonal D.
         if Ap[1] > Ap[0] {
